@@ -790,6 +790,10 @@ class Interp:
                     v = self.ctx.fresh_cv(ct, name + "_uninit")
                     e.vars[name] = v
                     return v
+            if not getattr(env, "is_spec", False) and "NameError" in self.builtins:
+                # Python semantics: reading a name that was never bound raises NameError /
+                # UnboundLocalError at run time (an unexpected exception for every contract)
+                self.throw("NameError", f"name '{name}' is not defined")
             raise Unsupported(f"unknown name {name}")
         if isinstance(v, Poison):
             raise Unsupported(f"read of {name}: {v.why}")
